@@ -2,7 +2,6 @@
 # © Copyright 2021-2022 Zapata Computing Inc.
 ################################################################################
 import json
-from copy import copy
 from functools import lru_cache
 from math import log2
 from typing import Any, Dict, List, Optional, Sequence, Set, Tuple, Union
@@ -120,13 +119,13 @@ class Wavefunction:
         return self._amplitude_vector[idx]
 
     def __setitem__(self, idx, val):
-        old_val = copy(self._amplitude_vector[idx])
+        old_vector = self._amplitude_vector.copy()
         self._amplitude_vector[idx] = val
 
         try:
             self._check_normalization(self._amplitude_vector)
         except ValueError:
-            self._amplitude_vector[idx] = old_val
+            self._amplitude_vector = old_vector
 
             raise ValueError("This assignment violates probability unity.")
 
